@@ -76,7 +76,7 @@ def main():
                 except symobs.Unusable as ex:
                     c.discard("independent reader: " + str(ex).split(":")[0][:60])
     c.cov["evaluations"] = len(events)
-    symcamp.judge(c, "CorpusTrace.tla", "CorpusTrace.cfg", events, shard=250)
+    symcamp.judge(c, [("CorpusTrace.tla", "CorpusTrace.cfg", events, 250)])
 
     nontrivial, kinds = set(), {}
     for ev in events:
